@@ -2,6 +2,7 @@ package checks
 
 import (
 	"path/filepath"
+	"time"
 
 	"verif/harness/internal/core"
 )
@@ -19,6 +20,9 @@ func C09(c *core.Ctx) {
 
 	c.SetCov("rule", "seeded randomised sessions with 40-bit rates at the boundaries (0, 1, 7, 8, 2^40-1), both gate bits, QFI 0..63 and per-QFI burst configurations; "+
 		"UP4 shards: the app_meter / session_meter cells named by the forwarding entries of the harness' P4Runtime switch are judged after establishments and after QER updates; "+
+		"GEN: TLC enumerates from spec/Up4QosScript.tla every behaviour of 3 (thorough: 4) operations over {8 establishment shapes (1 or 2 flows, with / without a session-level QER, flow QERs with / without "+
+		"guaranteed rates), session-level QER below / above the flows' rates, flow QER symmetric / asymmetric / above the session's / gate closed, add a flow, remove a flow, delete} (460 / 3 560 scripts), "+
+		"replayed into the real agent on UP4; "+
 		"evaluations = script steps, distinct_nontrivial = accepted session requests")
 
 	nup4 := 3
@@ -26,8 +30,39 @@ func C09(c *core.Ctx) {
 		nup4 = 6
 	}
 
-	res := runE2EMixed(c, nshards+nup4, "TraceE2E_C09.cfg", func(i int) (string, interface{}) {
+	// GEN: TLC enumerates from spec/Up4QosScript.tla every behaviour of 3 (thorough: 4) operations of one session whose QERs
+	// change (establishment shapes x session / flow QER updates x flows added and removed); the harness replays them on UP4
+	qosShards, genCfg := 4, "MCUp4QosScript.cfg"
+	if c.Thorough() {
+		qosShards, genCfg = 10, "MCUp4QosScript4.cfg"
+	}
+
+	scripts := filepath.Join(c.Scratch, "qos-scripts.json")
+
+	if c.ReplayDir == "" {
+		gr, err := c.RunTLC(core.TLCRun{Module: "Up4QosScript", Cfg: genCfg, Workers: 1, HeapMB: 1024, Timeout: 5 * time.Minute, Label: "gen"})
+		if err != nil || !gr.OK() {
+			c.Inconclusive("GEN: TLC did not enumerate the scripts of Up4QosScript")
+			qosShards = 0
+		} else {
+			n, err := writeScripts(gr.OutputPath, scripts)
+			if err != nil || n == 0 {
+				c.Inconclusive("GEN: no scripts in TLC's output: %v", err)
+				qosShards = 0
+			}
+
+			c.AddCount("gen_scripts", int64(n))
+			c.AddTLC("gen", gr)
+		}
+	}
+
+	res := runE2EMixed(c, nshards+nup4+qosShards, "TraceE2E_C09.cfg", func(i int) (string, interface{}) {
 		dir, trace := shardDir(c, i)
+		if i >= nshards+nup4 {
+			return "e2e-up4-qos", Up4QosParams{Dir: dir, Trace: trace, AgentBin: filepath.Join(c.BinDir, "verif-agent"), N4Addr: n4For(i),
+				Seed: c.Seed*1000 + 980 + int64(i), Scripts: scripts, Shard: i - nshards - nup4, Of: qosShards}
+		}
+
 		if i >= nshards { // UP4: peak rate and burst of the meter cells the entries name
 			return "e2e-up4", Up4Params{Dir: dir, Trace: trace, AgentBin: filepath.Join(c.BinDir, "verif-agent"), N4Addr: n4For(i),
 				Seed: c.Seed*1000 + 950 + int64(i), Scenarios: scenarios, Steps: steps, AddFlows: i%2 == 0, Wide: i%3 == 0}
